@@ -1,11 +1,14 @@
 import S2T.Model.Observe
 import S2T.Gen.Effects
+import S2T.Props.C06_History
+import S2T.Props.C06_Input
 /-!
 # C06 — determinism, purity, idempotent observation
 
 The library's results are plain dataclass trees; observation can only interfere through
 (a) hash-seed dependent iteration order, (b) writes to shared state inside observer methods,
-(c) stream positions of binary payloads, (d) writes to the caller's input buffer.
+(c) stream positions of binary payloads, (d) writes to the caller's input buffer, (e) process-global state left behind by earlier extractions
+(part `C06_History`: containers bound at module or class level, their aliases and escapes, caches, rebinds).
 For each channel the translator emits a closed-world inventory from the current source
 (`S2T.Gen.Effects`); the kernel re-decides that every inventoried site is one the theorems below
 account for, and the theorems show the accounted-for sites are unobservable.
@@ -131,8 +134,9 @@ def readOnlyStreamMethods : List String :=
     caller's stream are read-only ones -/
 theorem input_methods_readonly : inputMethods.all readOnlyStreamMethods.contains = true := by decide
 
-/-- consumers the stream is handed to: the package's own readers (scanned by the same inventory)
-    and third-party openers, all in read mode -/
+/-- consumers the stream is handed to: the package's own readers (the inventory follows the stream INTO them:
+    parameters, local aliases and `self.<attr>` holding it are scanned for method calls as well) and
+    third-party openers, all in read mode -/
 def reviewedConsumers : List String := [
   "OOXMLZipContext", "PdfReader", "SevenZipFile", "ZipContext", "_DocReader", "_DocxContext", "_EpubContext",
   "_OdpContext", "_OdsContext", "_OdtContext", "_PptxContext", "_detect_archive_type_optimized",
@@ -142,7 +146,9 @@ def reviewedConsumers : List String := [
   "_read_odg", "_read_odp", "_read_ods", "_read_odt", "_read_pdf", "_read_plain_text", "_read_ppt", "_read_pptx",
   "_read_rtf", "_read_xls", "_read_xlsx", "_should_skip_images", "is_odf_encrypted", "is_ooxml_encrypted",
   "is_ppt_encrypted", "is_xls_encrypted", "load_workbook", "olefile.OleFileIO", "olefile.isOleFile", "open_zipfile",
-  "super().__init__", "tarfile.open", "zipfile.ZipFile", "zipfile.is_zipfile"]
+  "super().__init__", "tarfile.open", "zipfile.ZipFile", "zipfile.is_zipfile",
+  -- reached since the inventory follows aliases (`self._file`, `source_file`) into the 7z reader:
+  "SevenZipReader", "hasattr", "self._decompress_folder", "self._reader.extractall"]
 
 theorem input_consumers_reviewed : inputPassedTo.all reviewedConsumers.contains = true := by decide
 
